@@ -37,7 +37,7 @@ func (world) Level() string    { return "exploration" }
 
 func (world) Describe() super.Description {
 	return super.Description{
-		Rule:        "A case = one base text (a tape-generated valid module or submodule rendered with lexical variety: unquoted/single/double-quoted/'+'-concatenated arguments, comments between tokens, CRLF, tabs; or an ill-formed module; or a structurally damaged module — one or two whole statements dropped, duplicated, moved into another block or swapped, a keyword replaced, an argument removed/added/garbled, the text staying lexically well-formed; or a raw byte/token string) and one fault operator applied to it: none; truncation at EVERY byte offset (exhaustive for that text, up to 1500 bytes, else a drawn window); 1..3 byte flips/inserts/deletes; token drop/duplicate/swap; trailing garbage after the final '}'; an early statement that fails its check; or a sequence of 2..4 parses sharing one pair of interners. All parses of a case run inside one synctest bubble. distinct_nontrivial = distinct non-empty input texts actually parsed (hash of the bytes).",
+		Rule:        "A case = one base text (a tape-generated valid module or submodule rendered with lexical variety: unquoted/single/double-quoted/'+'-concatenated arguments, comments between tokens, CRLF, tabs; or an ill-formed module; or a structurally damaged module — one or two whole statements dropped, duplicated, moved into another block or swapped, a keyword replaced, an argument removed/added/garbled, the text staying lexically well-formed; or a raw byte/token string) and one fault operator applied to it: none; truncation at EVERY byte offset (exhaustive for that text, up to 1500 bytes, else a drawn window); 1..3 byte flips/inserts/deletes; token drop/duplicate/swap; trailing garbage after the final '}'; an early statement that fails its check; or a sequence of 2..4 parses sharing one pair of interners. All parses of a case run inside one synctest bubble; in a third of the cases up to six of the same inputs are parsed again in SCHEDULE MODE: lexer goroutine and parser become workers of the tape-driven baton scheduler, their channel is simulated (simrewrite R4 on package parse: go statement, send, receive, close, range over channel) and 288 yield points are instrumented, so every interleaving decision is a tape draw; the outcome must equal the free-running one and nothing may stay blocked. distinct_nontrivial = distinct non-empty input texts actually parsed (hash of the bytes).",
 		DistinctSet: "texts",
 		Assumptions: []string{
 			"testing/synctest (go1.26.8): Wait() returns only when every other goroutine of the bubble is durably blocked or gone; a goroutine count that stays above the pre-call count after Wait() is a goroutine that will never finish",
@@ -49,7 +49,7 @@ func (world) Describe() super.Description {
 			"real": []string{"parse (lex.go goroutine+channel, parse.go, ast/arg/cardinality checks, symbol tables)"},
 			"stub": []string{"none (the text is the only other party); NodeCardinality callback for extensions is nil or a two-entry table"},
 		},
-		FaultKinds: []string{"structure:stmt-drop", "structure:stmt-dup", "structure:stmt-move", "structure:stmt-swap", "structure:keyword", "structure:arg-toggle", "structure:arg-garble", "truncate", "byte-flip", "byte-insert", "byte-delete", "token-drop", "token-dup", "token-swap", "trailing-garbage", "early-check-failure", "shared-interner-sequence"},
+		FaultKinds: []string{"schedule-switch", "structure:stmt-drop", "structure:stmt-dup", "structure:stmt-move", "structure:stmt-swap", "structure:keyword", "structure:arg-toggle", "structure:arg-garble", "truncate", "byte-flip", "byte-insert", "byte-delete", "token-drop", "token-dup", "token-swap", "trailing-garbage", "early-check-failure", "shared-interner-sequence"},
 	}
 }
 
@@ -216,7 +216,9 @@ func init() {
 }
 
 // runInputs parses the inputs sequentially inside one bubble.
-func (w world) runInputs(ins []input, shared bool, withCard bool, st *super.Stats) (v *super.Violation) {
+type brief struct{ errNil, root, panicked bool }
+
+func (w world) runInputs(ins []input, shared bool, withCard bool, st *super.Stats, outs *[]brief) (v *super.Violation) {
 	var si *parse.StringInterner
 	var ai *parse.ArgInterner
 	idx := -1
@@ -252,6 +254,9 @@ func (w world) runInputs(ins []input, shared bool, withCard bool, st *super.Stat
 				before := runtime.NumGoroutine()
 				o := doParse(in, si, ai, withCard)
 				synctest.Wait()
+				if outs != nil {
+					*outs = append(*outs, brief{o.err == nil, o.tree != nil && o.tree.Root != nil, o.panicked})
+				}
 				after := runtime.NumGoroutine()
 				if super.Noting() {
 					// (the raw goroutine count is not part of the outcome: runtime helper goroutines outside the bubble come and go)
@@ -502,7 +507,45 @@ func (w world) RunCase(t *tape.Tape, st *super.Stats) *super.Violation {
 		}
 		inc("fault:shared-interner-sequence")
 	}
-	v := w.runInputs(ins, shared, withCard, st)
+	var outs []brief
+	v := w.runInputs(ins, shared, withCard, st, &outs)
+	// schedule mode: a sample of the same inputs under tape-drawn interleavings
+	if v == nil && schedAvailable && !shared && t.Draw(3) == 2 {
+		n := 1 + t.Draw(6)
+		for k := 0; k < n && v == nil; k++ {
+			i := t.Draw(len(ins))
+			if i >= len(outs) {
+				continue
+			}
+			currentInput = ins[i].text
+			o, sv, steps, switches := runScheduled(ins[i], withCard, t)
+			if st != nil {
+				st.Inc("schedule_mode_parses")
+				st.Add("scheduler_steps", int64(steps))
+				st.Add("fault:schedule-switch", int64(switches))
+				if switches > 0 {
+					st.Seen("schedules", super.Hash(ins[i].text, fmt.Sprint(steps), fmt.Sprint(switches)))
+				}
+			}
+			if super.Noting() {
+				super.Note("sched", fmt.Sprint(o.err != nil), fmt.Sprint(o.panicked), fmt.Sprint(steps))
+			}
+			if sv != nil {
+				v = sv
+				break
+			}
+			if jv := judge(ins[i], o); jv != nil {
+				jv.Detail = "(schedule mode) " + jv.Detail
+				v = jv
+				break
+			}
+			b := brief{o.err == nil, o.tree != nil && o.tree.Root != nil, o.panicked}
+			if b != outs[i] {
+				v = &super.Violation{Class: "schedule-dependent-outcome", Sig: "schedule-dependent-outcome",
+					Detail: fmt.Sprintf("the same text gives a different outcome under a drawn interleaving of lexer and parser: free-running %+v, scheduled %+v (err=%v)\ninput %s: %q", outs[i], b, o.err, ins[i].name, clip(ins[i].text, 1200))}
+			}
+		}
+	}
 	if st != nil && v == nil {
 		if len(ins) > 0 && len(ins) < 4 {
 			st.Sample(map[string]any{"operator": []string{"none", "truncate-everywhere", "byte-damage", "token-op", "trailing-garbage", "early-check-failure", "shared-interner-sequence"}[op], "inputs": len(ins), "text": clip(ins[0].text, 400)})
